@@ -400,7 +400,7 @@ theorem rps_inv {st : State} (si : Nat) (d : Int) (b : Bool) (hI : InvAt none st
     · simp only [e1, false_and, if_false, or_false]
       by_cases e2 : id = p.id
       · subst e2
-        simp only [true_and, if_true, Option.some.injEq]
+        simp only [if_true, Option.some.injEq]
         constructor
         · intro e; subst e; exact ⟨p, by simp, rfl, rfl⟩
         · rintro ⟨q, hq, hqid, rfl⟩
@@ -409,7 +409,7 @@ theorem rps_inv {st : State} (si : Nat) (d : Int) (b : Bool) (hI : InvAt none st
           have hp' : p ∈ winParts (rpsStream Variant.ll (st.stream si) seg p b d ptd) := by
             rw [rps_winParts _ _ _ _ _ _ _ hs]; simp
           rw [hS''.part_unique q p hq' hp' hqid]
-      · simp only [e2, false_and, if_false]
+      · simp only [e2, if_false]
         rw [hold]
         constructor
         · rintro (⟨q, hq, hqid, rfl⟩ | ⟨e, _⟩)
